@@ -116,11 +116,12 @@ Proof.
   repeat (progress (rewrite ?Lk, ?Lv, ?Re, ?Rt, ?Rc; env)).
   assert (L5 : len (len k :: be32 (len v)) = 5) by reflexivity.
   split; [|split; [|reflexivity]].
-  - rewrite ?write_at_app. reflexivity.
-  - rewrite L5. constructor; cbn [attrs set_attr toc last eof md closed strm s_closed s_wr]; env.
+  - rewrite ?write_at_app, <- ?app_assoc. reflexivity.
+  - repeat rewrite len_app. rewrite ?L5. constructor; cbn [attrs set_attr toc last eof md closed strm s_closed s_wr]; env.
     + reflexivity.
     + exact Rl.
-    + rewrite len_encb. do 2 f_equal. lia.
+    + first [ rewrite len_encb; apply (f_equal (fun x => Some (VInt x))); lia
+            | apply (f_equal (fun l => Some (VInt (e + len l)))); unfold encb; cbn [app]; rewrite <- ?app_assoc; reflexivity ].
     + exact Rc.
     + intros _. split; reflexivity.
     + intros _. discriminate.
@@ -177,21 +178,21 @@ Record LoopSt (f : bytes) (w : bool) (p : N) (t : toc_t) (lk : option bytes) (s 
   ls_file : file s = f;
   ls_strm : strm s = mks p w false;
   ls_toc : lookup_env (attrs s) "_toc" = Some (VToc t);
-  ls_pos : lookup_env (locals s) "pos" = Some (VInt p);
-  ls_size : lookup_env (locals s) "size" = Some (VInt (len f));
-  ls_key : lookup_env (locals s) "key" = Some (vopt_bytes lk)
+  ls_pos : lookup_env (locals s) "L1" = Some (VInt p);
+  ls_size : lookup_env (locals s) "L0" = Some (VInt (len f));
+  ls_key : lookup_env (locals s) "L2" = Some (vopt_bytes lk)
 }.
 
 
 (* one evaluation of the loop condition: read five bytes, unpack them *)
 Lemma cnd_exec fuel cnd body f w rem p s :
-  find_while map_blocks_prog = Some (cnd, "blk_header", body) ->
+  find_while map_blocks_prog = Some (cnd, "L3", body) ->
   file s = f -> strm s = mks p w false -> rem = skipn (N.to_nat p) f ->
   exists s1, exec fuel cnd s = (s1, ONormal) /\
     file s1 = f /\ strm s1 = mks (p + len (firstn 5 rem)) w false /\ attrs s1 = attrs s /\
-    lookup_env (locals s1) "blk_header" = Some (match unpack HBlock (firstn 5 rem) with Some v => v | None => VNone end) /\
-    lookup_env (locals s1) "pos" = lookup_env (locals s) "pos" /\ lookup_env (locals s1) "size" = lookup_env (locals s) "size" /\
-    lookup_env (locals s1) "key" = lookup_env (locals s) "key".
+    lookup_env (locals s1) "L3" = Some (match unpack HBlock (firstn 5 rem) with Some v => v | None => VNone end) /\
+    lookup_env (locals s1) "L1" = lookup_env (locals s) "L1" /\ lookup_env (locals s1) "L0" = lookup_env (locals s) "L0" /\
+    lookup_env (locals s1) "L2" = lookup_env (locals s) "L2".
 Proof.
   intros Hw Hf Hs Hrem. cbv in Hw. inversion Hw; subst cnd body; clear Hw.
   destruct s as [f0 st at_ lo]. cbn in Hf, Hs. subst f0 st.
@@ -205,12 +206,12 @@ Proof. unfold len. intros H. rewrite firstn_length. lia. Qed.
 
 (* one execution of the loop body on a complete five-byte block header *)
 Lemma body_exec fuel cnd body f w p t lk kl a b c d rest s1 :
-  find_while map_blocks_prog = Some (cnd, "blk_header", body) ->
+  find_while map_blocks_prog = Some (cnd, "L3", body) ->
   skipn (N.to_nat p) f = kl :: a :: b :: c :: d :: rest ->
   file s1 = f -> strm s1 = mks (p + 5) w false -> lookup_env (attrs s1) "_toc" = Some (VToc t) ->
-  lookup_env (locals s1) "blk_header" = Some (VTup [VInt kl; VInt (rd32 a b c d)]) ->
-  lookup_env (locals s1) "pos" = Some (VInt p) -> lookup_env (locals s1) "size" = Some (VInt (len f)) ->
-  lookup_env (locals s1) "key" = Some (vopt_bytes lk) ->
+  lookup_env (locals s1) "L3" = Some (VTup [VInt kl; VInt (rd32 a b c d)]) ->
+  lookup_env (locals s1) "L1" = Some (VInt p) -> lookup_env (locals s1) "L0" = Some (VInt (len f)) ->
+  lookup_env (locals s1) "L2" = Some (vopt_bytes lk) ->
   let vl := rd32 a b c d in
   if kl + vl <=? len rest then
     exists s2, exec fuel body s1 = (s2, ONormal) /\
@@ -218,8 +219,8 @@ Lemma body_exec fuel cnd body f w p t lk kl a b c d rest s1 :
       (forall x, x <> "_toc" -> lookup_env (attrs s2) x = lookup_env (attrs s1) x)
   else
     exists s2, exec fuel body s1 = (s2, OBreak) /\ file s2 = f /\ s_wr (strm s2) = w /\ s_closed (strm s2) = false /\
-      attrs s2 = attrs s1 /\ lookup_env (locals s2) "pos" = Some (VInt p) /\
-      lookup_env (locals s2) "size" = Some (VInt (len f)) /\ lookup_env (locals s2) "key" = Some (vopt_bytes lk).
+      attrs s2 = attrs s1 /\ lookup_env (locals s2) "L1" = Some (VInt p) /\
+      lookup_env (locals s2) "L0" = Some (VInt (len f)) /\ lookup_env (locals s2) "L2" = Some (vopt_bytes lk).
 Proof.
   intros Hw Hrem Hf Hs Ht Hb Hp Hz Hk vl. cbv in Hw. inversion Hw; subst cnd body; clear Hw.
   destruct (skipn5 f _ _ _ _ _ _ _ Hrem) as [Hrest Hlen].
@@ -248,16 +249,16 @@ Proof.
 Qed.
 
 Lemma wloop_scan fuel cnd body f w :
-  find_while map_blocks_prog = Some (cnd, "blk_header", body) ->
+  find_while map_blocks_prog = Some (cnd, "L3", body) ->
   forall n rem p t lk s,
   (List.length rem < n)%nat -> rem = skipn (N.to_nat p) f -> LoopSt f w p t lk s ->
-  exists s', wloop (exec fuel cnd) (exec fuel body) "blk_header" n s = (s', ONormal) /\
+  exists s', wloop (exec fuel cnd) (exec fuel body) "L3" n s = (s', ONormal) /\
     let '(t', lk', p') := scan n rem p t lk in
     file s' = f /\ s_wr (strm s') = w /\ s_closed (strm s') = false /\
     lookup_env (attrs s') "_toc" = Some (VToc t') /\
     (forall x, x <> "_toc" -> lookup_env (attrs s') x = lookup_env (attrs s) x) /\
-    lookup_env (locals s') "pos" = Some (VInt p') /\ lookup_env (locals s') "size" = Some (VInt (len f)) /\
-    lookup_env (locals s') "key" = Some (vopt_bytes lk').
+    lookup_env (locals s') "L1" = Some (VInt p') /\ lookup_env (locals s') "L0" = Some (VInt (len f)) /\
+    lookup_env (locals s') "L2" = Some (vopt_bytes lk').
 Proof.
   intros Hw. induction n as [|n IH]; intros rem p t lk s Hn Hrem L; [lia|].
   destruct L as [Lf Ls Lt Lp Lz Lk].
@@ -267,14 +268,14 @@ Proof.
           scan (S n) rem p t lk = (t, lk, p) ->
           exists s' : state,
             (if truthy VNone then (let '(s2, o2) := exec fuel body s1 in
-                 match o2 with ONormal => wloop (exec fuel cnd) (exec fuel body) "blk_header" n s2 | OBreak => (s2, ONormal) | _ => (s2, o2) end)
+                 match o2 with ONormal => wloop (exec fuel cnd) (exec fuel body) "L3" n s2 | OBreak => (s2, ONormal) | _ => (s2, o2) end)
              else (s1, ONormal)) = (s', ONormal) /\
             (let '(t', lk', p') := (t, lk, p) in
              file s' = f /\ s_wr (strm s') = w /\ s_closed (strm s') = false /\
              lookup_env (attrs s') "_toc" = Some (VToc t') /\
              (forall x, x <> "_toc" -> lookup_env (attrs s') x = lookup_env (attrs s) x) /\
-             lookup_env (locals s') "pos" = Some (VInt p') /\ lookup_env (locals s') "size" = Some (VInt (len f)) /\
-             lookup_env (locals s') "key" = Some (vopt_bytes lk'))).
+             lookup_env (locals s') "L1" = Some (VInt p') /\ lookup_env (locals s') "L0" = Some (VInt (len f)) /\
+             lookup_env (locals s') "L2" = Some (vopt_bytes lk'))).
   { intros _ _. exists s1. cbn [truthy]. split; [reflexivity|]. rewrite F1, S1, A1, P1, Z1, K1. cbn [s_wr s_closed].
     repeat split; try assumption; intros; reflexivity. }
   destruct rem as [|kl [|a [|b [|c [|d rest]]]]];
@@ -336,7 +337,7 @@ Fixpoint find_if (c : stmt) : option (expr * stmt * stmt) :=
 (* the "nothing changed since I last looked" test of map_blocks is the model's [shortcut] *)
 Lemma shortcut_eval cond a b s h h2v b0v :
   find_if map_blocks_prog = Some (cond, a, b) ->
-  Obj s h h2v b0v -> lookup_env (locals s) "size" = Some (VInt (len (file s))) ->
+  Obj s h h2v b0v -> lookup_env (locals s) "L0" = Some (VInt (len (file s))) ->
   exists v, eval s cond = Val v /\ truthy v = shortcut (file s) h.
 Proof.
   intros Hc O Hz. cbv in Hc. inversion Hc; subst cond a b; clear Hc.
@@ -367,19 +368,19 @@ Proof.
   intros Hfuel O.
   destruct (find_if map_blocks_prog) as [[[cond ca] cb]|] eqn:Hif; [|discriminate].
   destruct (find_while map_blocks_prog) as [[[wc wx] wb]|] eqn:Hwh; [|discriminate].
-  assert (Hwx : wx = "blk_header") by (cbv in Hwh; inversion Hwh; reflexivity). subst wx.
+  assert (Hwx : wx = "L3") by (cbv in Hwh; inversion Hwh; reflexivity). subst wx.
   pose proof Hif as Hif0. pose proof Hwh as Hwh0. cbv in Hif0, Hwh0. inversion Hif0 as [[Hcond Hca Hcb]]. inversion Hwh0 as [[Hwc Hwb]].
   destruct s as [f [p w c] at_ lo]. pose proof O as O'. destruct O as [Ot Ol Oe O2 O0 Ob Oin [Oc Ow]].
   cbn in Hfuel, Ot, Ol, Oe, O2, O0, Ob, Oc, Ow. subst c. cbn [file attrs strm s_wr s_closed].
   unfold map_blocks_prog. rewrite Hcond, Hwc, Hwb. clear Hif0 Hwh0 Hcond Hca Hcb Hwc Hwb.
   (* size = self._stream.seek(0, 2) *)
   cbn [exec strm s_closed file]. cbn [eval set_local set_pos locals file strm attrs s_pos s_wr s_closed]. envg.
-  set (s1 := mkst f (mks (len f) w false) at_ (set_env (set_env lo "%1" (VInt (len f))) "size" (VInt (len f)))).
+  set (s1 := mkst f (mks (len f) w false) at_ (set_env (set_env lo "%1" (VInt (len f))) "L0" (VInt (len f)))).
   assert (O1 : Obj s1 h h2v b0v).
   { constructor; cbn [attrs file strm s1 s_closed s_wr]; try assumption. split; [reflexivity|exact Ow]. }
-  assert (Z1 : lookup_env (locals s1) "size" = Some (VInt (len (file s1)))) by (cbn [locals file s1]; envg; reflexivity).
+  assert (Z1 : lookup_env (locals s1) "L0" = Some (VInt (len (file s1)))) by (cbn [locals file s1]; envg; reflexivity).
   destruct (shortcut_eval cond ca cb s1 h h2v b0v Hif O1 Z1) as [v [Ev Tv]].
-  change (set_local (set_local (set_pos (mkst f (mks p w false) at_ lo) (len f)) "%1" (VInt (len f))) "size" (VInt (len f))) with s1.
+  change (set_local (set_local (set_pos (mkst f (mks p w false) at_ lo) (len f)) "%1" (VInt (len f))) "L0" (VInt (len f))) with s1.
   rewrite Ev, Tv. cbn [file s1]. unfold map_blocks. destruct (shortcut f h) eqn:Esc.
   - (* nothing changed since this handle last looked *)
     cbn [file attrs strm s1 s_closed s_wr]. repeat split; try assumption; try reflexivity. right; reflexivity.
@@ -387,7 +388,7 @@ Proof.
     (* pos = self._bof; seek(pos); key = None *)
     cbn [exec eval attrs locals file strm s1 s_closed s_wr s_pos set_local set_pos]. rewrite O0, O2. envg.
     replace (32 + len b0v + len h2v) with B by (symmetry; exact Ob).
-    set (s2 := set_local (set_pos (set_local s1 "pos" (VInt B)) B) "key" VNone).
+    set (s2 := set_local (set_pos (set_local s1 "L1" (VInt B)) B) "L2" VNone).
     assert (L2 : LoopSt f w B (toc h) None s2).
     { constructor; cbn [s2 s1 file strm attrs locals set_local set_pos s_wr s_closed]; envg; try reflexivity; assumption. }
     assert (Hlen : (List.length (skipn (N.to_nat B) f) < fuel)%nat) by (rewrite skipn_length; lia).
